@@ -947,6 +947,12 @@ def install() -> None:
             cls = classify_rel(prefix.strip("/"))
 
             def vf(d):
+                ent = d.get("entry", "")
+                if ent.startswith("RAISE:"):
+                    # the layer below the backend (overlay / network filesystem, a third-party StorageBackend) answers
+                    # the listing of an EXISTING directory with an error of this class
+                    raise {"FileNotFoundError": FileNotFoundError, "NotADirectoryError": NotADirectoryError,
+                           "PermissionError": PermissionError}[ent[6:]](f"injected {ent[6:]} from list_files({prefix!r})")
                 out = list(res)
                 pos = d.get("pos", "end")
                 i = 0 if pos == "start" else (len(out) // 2 if pos == "mid" else len(out))
